@@ -12,7 +12,7 @@ func (g *Gen) Idiom() *Program {
 		x, y = "y", "x"
 	}
 	k := int64(1 + g.R.Intn(3))
-	switch g.R.Intn(28) {
+	switch g.R.Intn(36) {
 	case 0:
 		// the caller has a local of the same name as the callee's free variable
 		return &Program{Forms: []*Node{
@@ -165,6 +165,42 @@ func (g *Gen) Idiom() *Program {
 			Defn("c", nil, "", Call(Fn([]string{"h"}, "", CallN("h")), Fn(nil, "", body))),
 			Defn("f", []string{x}, "", Def("r", CallN("c")), CallN("list", Var("r"), Var(x))),
 			CallN("f", Int(5))}}
+	case 24:
+		// the same variable as a bare argument on both sides of an argument that changes it
+		switch g.R.Intn(4) {
+		case 0:
+			return &Program{Forms: []*Node{Def(x, Int(1)), CallN("list", Var(x), Set(x, Int(k+1)), Var(x))}}
+		case 1:
+			return &Program{Forms: []*Node{Def(x, Int(1)),
+				Defn("bump", nil, "", Set(x, CallN("+", Var(x), Int(k)))),
+				CallN("+", Var(x), CallN("bump"), Var(x))}}
+		case 2:
+			return &Program{Forms: []*Node{Def(x, Int(1)),
+				Defn("f", []string{"a", "b", "c"}, "", CallN("list", Var("a"), Var("b"), Var("c"))),
+				CallN("f", Var(x), Def(x, Int(k+4)), Var(x))}}
+		}
+		return &Program{Forms: []*Node{Def(x, Int(1)), Def(y, Int(2)),
+			Defn("f", []string{"a"}, "r", CallN("cons", Var("a"), Var("r"))),
+			CallN("f", Var(x), Var(y), CallN("trace", Set(y, Var(x))), Set(x, Int(k+7)), Var(y), Var(x))}}
+	case 25:
+		// a constant array literal written as a call argument, at a call site executed several times, mutated
+		switch g.R.Intn(3) {
+		case 0:
+			return &Program{Forms: []*Node{
+				Defn("fill", []string{"a", "v"}, "", CallN("aset", Var("a"), Int(0), Var("v")), Var("a")),
+				Defn("mk", []string{"v"}, "", CallN("fill", Arr(Int(0), Int(0)), Var("v"))),
+				CallN("list", CallN("mk", Int(1)), CallN("mk", Int(k+1)))}}
+		case 1:
+			return &Program{Forms: []*Node{
+				Defn("inc", []string{"a"}, "", CallN("aset", Var("a"), Int(0), CallN("+", CallN("aget", Var("a"), Int(0)), Int(1))), CallN("aget", Var("a"), Int(0))),
+				Defn("g", nil, "", CallN("inc", Arr(Int(k), Int(2)))),
+				CallN("list", CallN("g"), CallN("g"), CallN("g"))}}
+		}
+		return &Program{Forms: []*Node{Def("r", Arr()),
+			Defn("fill", []string{"a", "v"}, "", CallN("aset", Var("a"), Int(1), Var("v")), Var("a")),
+			For("", Def("i", Int(0)), CallN("<", Var("i"), Int(k+1)), Set("i", CallN("+", Var("i"), Int(1))),
+				Set("r", CallN("append", Var("r"), CallN("fill", Arr(Str("a"), Int(0)), Var("i"))))),
+			Var("r")}}
 	case 22:
 		// tail recursion creating a closure per iteration, used after later iterations
 		return &Program{Forms: []*Node{Def("a", Arr()),
